@@ -57,6 +57,10 @@ func init() {
 			callGate("shutdown", gen)
 			return nil
 		})
+		c.OnRestartFailed(func() error {
+			callGate("restartfailed", gen)
+			return nil
+		})
 		return nil
 	}})
 }
